@@ -1,4 +1,187 @@
+/-
+C03 — exporting a database and re-importing it preserves the lexicons.
+Theorems over `Model/Export.lean` (`_export.py`) and its composition with `_insert_lexicon`
+(`Model/Add.lean`).  The full statement export ∘ add ≃ id is decided by correspondence and the
+document-level oracle; proved here: lexicon attributes and dependencies survive add-then-export,
+ILI / proposed-ILI encoding, sense-frame links in both encodings, selection.
+-/
 import WnVerif.Model.Export
+import WnVerif.Model.Add
+import WnVerif.Lemmas.DbAux
+import WnVerif.Lemmas.Sorted
+import WnVerif.Props.C01
 namespace WnVerif.Props.C03
-theorem placeholder_true : True := trivial
+open WnVerif.Db WnVerif.Doc
+
+/-- `x or ''` / `x or None`: absent and empty are the same for optional attributes -/
+def optEq (a b : Option String) : Prop := a.getD "" = b.getD ""
+
+/-- exporting the row written by `_insert_lexicon` gives back the document's lexicon attributes
+(optional ones modulo absent = empty) and its metadata (absent = empty dict) -/
+theorem C03_lexicon_attributes (db db' : Db) (l : Lexicon) (lexid extid : Nat) (v : String)
+    (h : insertLexicon db l = .ok (db', lexid, extid)) :
+    ∃ row ∈ db'.lexicons, row.rowid = lexid ∧
+      let x := exportLexicon db' row v
+      x.id = l.id ∧ x.version = l.version ∧ x.label = l.label ∧ x.language = l.language ∧ x.email = l.email ∧
+      x.license = l.license ∧ optEq x.url l.url ∧ optEq x.citation l.citation ∧
+      (Lmf.atLeast11 v = true → optEq x.logo l.logo) ∧ x.md = some (l.md.getD []) := by
+  obtain ⟨hrows, _, _⟩ := C01.C01_lexicon_row db db' l lexid extid h
+  refine ⟨⟨lexid, l.id, l.label, l.language, l.email, l.license, l.version, l.url, l.citation, l.logo, l.md⟩, by rw [hrows]; simp, rfl, ?_⟩
+  simp only [exportLexicon, optEq, Option.getD_some, mdOrEmpty, true_and, and_true]
+  intro hv; simp [hv]
+
+/-- dependencies (LMF ≥ 1.1): exactly the dependency rows of the lexicon, in insertion order, with
+the declared id, version and url (not the provider's) -/
+theorem C03_dependencies (db : Db) (row : RLexicon) (v : String) (hv : Lmf.atLeast11 v = true) :
+    (exportLexicon db row v).requires =
+      (db.deps.filter (fun d => d.dependent == row.rowid)).map (fun d => { id := d.pid, version := d.pver, url := d.purl }) := by
+  simp [exportLexicon, hv]
+
+/-- … and after `_insert_lexicon` into a store holding no dependency rows for the fresh rowid these
+are the document's `Requires`, in order -/
+theorem C03_dependencies_round_trip (db db' : Db) (l : Lexicon) (lexid extid : Nat)
+    (h : insertLexicon db l = .ok (db', lexid, extid)) (hclean : ∀ d ∈ db.deps, d.dependent ≠ lexid) :
+    (db'.deps.filter (fun d => d.dependent == lexid)).map (fun d => ({ id := d.pid, version := d.pver, url := d.purl } : Dep)) = l.requires := by
+  have key : ∀ (deps0 : List RDep) (new : List RDep), (∀ d ∈ deps0, d.dependent ≠ lexid) → (∀ d ∈ new, d.dependent = lexid) →
+      (deps0 ++ new).filter (fun d => d.dependent == lexid) = new := by
+    intro deps0 new h0 h1
+    rw [List.filter_append]
+    have e0 : deps0.filter (fun d => d.dependent == lexid) = [] := by
+      rw [List.filter_eq_nil_iff]; intro d hd; simpa using h0 d hd
+    have e1 : new.filter (fun d => d.dependent == lexid) = new := by
+      rw [List.filter_eq_self]; intro d hd; simpa using h1 d hd
+    rw [e0, e1]; rfl
+  have relinked : ∀ d ∈ db.deps.map (fun d => if d.pid == l.id && d.pver == l.version then { d with provider := some lexid } else d), d.dependent ≠ lexid := by
+    intro d hd
+    obtain ⟨d0, hd0, rfl⟩ := List.mem_map.mp hd
+    have := hclean d0 hd0
+    split <;> simpa using this
+  unfold insertLexicon at h
+  simp only [bind, Except.bind, pure, Except.pure] at h
+  split at h
+  · simp [throw, throwThe, MonadExcept.throw] at h
+  · split at h
+    · split at h
+      · simp at h
+      · simp only [Except.ok.injEq, Prod.mk.injEq] at h
+        obtain ⟨h1, h2, _⟩ := h
+        subst h1 h2
+        simp only
+        rw [key _ _ relinked (by intro d hd; obtain ⟨x, _, rfl⟩ := List.mem_map.mp hd; rfl)]
+        rw [List.map_map]
+        conv => rhs; rw [← List.map_id l.requires]
+        apply List.map_congr_left
+        intro d _; rfl
+    · simp only [Except.ok.injEq, Prod.mk.injEq] at h
+      obtain ⟨h1, h2, _⟩ := h
+      subst h1 h2
+      simp only
+      rw [key _ _ relinked (by intro d hd; obtain ⟨x, _, rfl⟩ := List.mem_map.mp hd; rfl)]
+      rw [List.map_map]
+      conv => rhs; rw [← List.map_id l.requires]
+      apply List.map_congr_left
+      intro d _; rfl
+
+/-- only the selected lexicon's own entries and synsets are exported -/
+theorem C03_exports_own_entries (db : Db) (row : RLexicon) (v : String) (e : Entry)
+    (h : e ∈ (exportLexicon db row v).entries) :
+    ∃ w ∈ findEntries db none [] none [row.rowid] false true, e.id = w.id ∧ w.lex = row.rowid ∧ e.external = false := by
+  simp only [exportLexicon, exportEntries, List.mem_map] at h
+  obtain ⟨w, hw, rfl⟩ := h
+  refine ⟨w, hw, rfl, ?_, rfl⟩
+  have := C04_inside w hw
+  exact this
+where
+  C04_inside (w : WordData) (hw : w ∈ findEntries db none [] none [row.rowid] false true) : w.lex = row.rowid := by
+    unfold findEntries at hw
+    simp only [List.mem_filterMap] at hw
+    obtain ⟨e, he, hx⟩ := hw
+    rw [mem_sortBy] at he
+    simp only [List.mem_filter, Bool.and_eq_true] at he
+    have hl := he.2.2
+    simp [inLexOrAll] at hl
+    split at hx
+    · simp at hx
+    · simp at hx; subst hx; exact hl
+
+/-- ILI encoding: a synset with an ILI is exported with that ILI; one with only a proposed ILI
+with `ili="in"`; one with neither with the empty string -/
+theorem C03_ili_encoding (db : Db) (lexids : List Nat) (v11 : Bool) (s : Synset) (h : s ∈ exportSynsets db lexids v11) :
+    ∃ y ∈ findSynsets db none [] none none lexids false true, s.id = y.id ∧
+      s.ili = (match y.ili with
+        | some i => if i != "" then i else (if (db.pilis.find? (fun p => p.synset == y.rowid)).isSome then "in" else "")
+        | none => if (db.pilis.find? (fun p => p.synset == y.rowid)).isSome then "in" else "") := by
+  simp only [exportSynsets, List.mem_map] at h
+  obtain ⟨y, hy, rfl⟩ := h
+  exact ⟨y, hy, rfl, rfl⟩
+
+/-- a proposed ILI is exported even when it has no definition (`ili="in"` without ILIDefinition),
+and with its definition and metadata when it has one -/
+theorem C03_proposed_ili (db : Db) (lexids : List Nat) (v11 : Bool) (y : SynsetData)
+    (hy : y ∈ findSynsets db none [] none none lexids false true) (hno : y.ili = none)
+    (p : RPIli) (hp : db.pilis.find? (fun p => p.synset == y.rowid) = some p) :
+    ∃ s ∈ exportSynsets db lexids v11, s.id = y.id ∧ s.ili = "in" ∧
+      s.iliDef = (match p.definition with
+        | some d => if d != "" then some { text := d, md := some (p.md.getD []) } else none
+        | none => none) := by
+  refine ⟨_, List.mem_map.mpr ⟨y, hy, rfl⟩, rfl, ?_, ?_⟩
+  · simp [hno, hp]
+  · simp only [hp, mdOrEmpty]
+    cases p.definition <;> rfl
+
+/-! ### sense ↔ frame links -/
+
+/-- LMF 1.0 encoding: frame `f` lists sense `sid` exactly when the store links `sid` to a frame
+with that text — no link is lost, none invented -/
+theorem C03_frame_links_1_0 (db : Db) (lexids : List Nat) (senses : List Sense) (fr sid : String) :
+    (∃ f ∈ exportFrames10 db lexids senses, f.frame = fr ∧ sid ∈ f.senses) ↔
+      (∃ s ∈ senses, s.id = sid ∧ ∃ e ∈ sbMap db lexids sid, e.2 = fr) := by
+  unfold exportFrames10
+  simp only [List.mem_map]
+  constructor
+  · rintro ⟨f, ⟨fr', _, rfl⟩, rfl, hs⟩
+    simp only at hs
+    rw [mem_sortedSet] at hs
+    simp only [List.mem_map, List.mem_filter, List.mem_flatMap] at hs
+    obtain ⟨p, ⟨⟨s, hs1, e, he, rfl⟩, hp⟩, rfl⟩ := hs
+    simp only [beq_iff_eq] at hp
+    exact ⟨s, hs1, rfl, e, he, hp⟩
+  · rintro ⟨s, hs, rfl, e, he, rfl⟩
+    have hpair : (e.2, s.id) ∈ senses.flatMap (fun s => (sbMap db lexids s.id).map (fun e => (e.2, s.id))) := by
+      simp only [List.mem_flatMap, List.mem_map]
+      exact ⟨s, hs, e, he, rfl⟩
+    obtain ⟨k, hk, hkk⟩ := key_mem_dedupBy id ((senses.flatMap (fun s => (sbMap db lexids s.id).map (fun e => (e.2, s.id)))).map (·.1)) e.2
+      (List.mem_map.mpr ⟨_, hpair, rfl⟩)
+    simp only [id] at hkk
+    refine ⟨_, ⟨k, hk, rfl⟩, hkk, ?_⟩
+    simp only
+    rw [mem_sortedSet]
+    simp only [List.mem_map, List.mem_filter]
+    exact ⟨(e.2, s.id), ⟨hpair, by simp [hkk]⟩, rfl⟩
+
+/-- LMF ≥ 1.1 encoding: `subcat` of an exported sense is the sorted set of the ids of the frames
+linked to it (frames without an id cannot be referenced: known finding F2-residual) -/
+theorem C03_subcat_links (db : Db) (entry : Nat) (lexids : List Nat) (s : Sense) (h : s ∈ exportSenses db entry lexids true)
+    (hne : (sbMap db lexids s.id).isEmpty = false) (fid : String) :
+    fid ∈ s.subcat ↔ fid ≠ "" ∧ ∃ e ∈ sbMap db lexids s.id, e.1 = some fid := by
+  simp only [exportSenses, List.mem_map] at h
+  obtain ⟨sd, _, rfl⟩ := h
+  simp only at hne ⊢
+  simp only [hne, Bool.not_false, Bool.and_self, if_true]
+  rw [mem_sortedSet]
+  simp only [List.mem_filterMap]
+  constructor
+  · rintro ⟨e, he, hx⟩
+    split at hx
+    · rename_i i hi
+      split at hx
+      · rename_i hne'
+        simp at hx; subst hx
+        exact ⟨by simpa using hne', e, he, hi⟩
+      · simp at hx
+    · simp at hx
+  · rintro ⟨hne', e, he, hi⟩
+    refine ⟨e, he, ?_⟩
+    simp [hi, hne']
+
 end WnVerif.Props.C03
